@@ -1106,7 +1106,7 @@ def witnesses(ctx):
     g2 = zoo.frame_from_columns(cb, ((1, False), (2, True)), columns=cols3)
     g3 = zoo.frame_from_columns(cb, ((1, False), (1, False), (1, True)), columns=cols3)
     for other in (g2, g3):
-        for opname in ('add', 'sub', 'mul', 'eq'):
+        for opname in ('add', 'sub', 'eq'):       # (no product: it would overflow int64, outside the exact-arithmetic oracle)
             yield from frame_pair_cases(ctx, g1, other, ['int', 'int', 'float'], ['int', 'float', 'float'], opname, 'witness:frame-op-frame')
 
 
